@@ -49,6 +49,7 @@ func (g *Gen) scanOp(ts *TableSpec) Op {
 	}
 	o.NumRows = []uint32{0, 1, 2, 3}[g.R.Intn(4)]
 	o.Partial = g.R.Chance(0.35)
+	o.Filter = g.R.Chance(0.15)
 	if g.R.Chance(0.3) {
 		o.Fams = map[string][]string{"cf": nil}
 	}
